@@ -25,6 +25,11 @@ def gen(tier, rng):
         out.append((D.decode_line("token", False, D.render(D.obj([("access_token", "a"), ("token_type", "bearer"), ("expires_in", e)]), rng)), "expires-range"))
     for tt in D.TT + ["BEARER", "bearer\u0000", "Mac", "mAc", "MACx"]:
         out.append((D.decode_line("token", False, D.render(D.obj([("access_token", "a"), ("token_type", tt)]), rng)), "token-type-case"))
+    # large, valid documents through a 200 reply (around and beyond 64 KiB): accepted like small ones
+    for size in (65000, 65537, 70000):
+        m_, known_ = D.family_doc("token", rng, False)
+        for pad in (("padding", "x" * size), ("padding", ["y"] * (size // 4))):
+            out.append((c05.http_line("sync" if size % 2 else "async", "code", False, 200, b"application/json", D.render(D.obj(m_ + [pad]), rng, plain=True)), "large-http"))
     return out
 
 
